@@ -4,6 +4,8 @@ import (
 	"fmt"
 	"math"
 	"math/rand"
+	"os"
+	"strconv"
 	"strings"
 )
 
@@ -83,6 +85,15 @@ func scenarios(seed int64, thorough bool) []*Scenario {
 			s.DelaysNs = []int64{}
 		}
 		out = append(out, s)
+	}
+	// C12_STRESS=<n>: only n keep-alive streams of the shape that once left a keepAlive goroutine
+	// behind (microsecond pings, a 70 KB event) - a debugging aid, not used by the registered commands
+	if n, _ := strconv.Atoi(os.Getenv("C12_STRESS")); n > 0 {
+		for i := 0; i < n; i++ {
+			add(&Scenario{Class: "sse-keepalive", Kind: "sse", IntervalNs: 1_000 + int64(r.Intn(3_000)), N: 2,
+				Sizes: []int{1900, 70000}, DelaysNs: []int64{0, 0}, CutAt: -1})
+		}
+		return out
 	}
 	rep := 1
 	if thorough {
